@@ -10,6 +10,7 @@ import (
 	"fmt"
 	"io"
 	"math"
+	"reflect"
 	"sync"
 	"testing"
 
@@ -522,7 +523,7 @@ func craftedT0Tasks() (tasks []func()) {
 	}
 	for _, im := range impls {
 		im := im
-		tasks = append(tasks, func() { craftedRho(im) })
+		tasks = append(tasks, func() { craftedRho(im) }, func() { pairAfterReload(im) })
 	}
 	return
 }
@@ -568,6 +569,69 @@ func craftedRho(im *impl) {
 			lib.Count("crafted-rho-signed")
 			if !lib.Eq(got, want) {
 				viol(im, mon, "signature-mismatch", "crafted-sk-rho-constant", "sk", skb, "rho", skb[:32], "msg", msg, "ctx", ctx, "circl", got, "fips204", want)
+				break
+			}
+		}
+	}
+}
+
+// pairAfterReload: the public key of a generated pair (and the one Public()
+// hands out) is a value of its own: when the PRIVATE key object is re-used
+// for another key (its own UnmarshalBinary / Unpack), the public key still
+// verifies the genuine signatures made before and still packs to the same
+// octets.
+func pairAfterReload(im *impl) {
+	const mon = "TestVerifDifferential/PairAfterReload"
+	p := im.p
+	for i := 0; i < 3; i++ {
+		r := lib.NewRng("c04/pair-reload/"+p.Name, i)
+		seed := r.Bytes(32)
+		pkObj, skObj := im.newKey(seed)
+		if i == 2 {
+			pkObj, skObj, _ = im.generate(lib.NewRng("c04/pair-reload/gen/"+p.Name, i))
+		}
+		pubObj := im.public(skObj)
+		pkb := lib.Clone(im.packPK(pkObj))
+		msg := r.Bytes(1 + r.Intn(60))
+		ctx := genCtx(r, p)
+		sig, err := im.sign(skObj, msg, ctx, false)
+		if err != nil || !im.verify(pkObj, msg, ctx, sig) {
+			continue // the differential monitors report this
+		}
+		_, otherSK := p.KeyGen(r.Bytes(32))
+		done := false
+		rv := reflect.ValueOf(skObj)
+		for _, mname := range []string{"UnmarshalBinary", "Unpack"} {
+			m := rv.MethodByName(mname)
+			if !m.IsValid() || m.Type().NumIn() != 1 {
+				continue
+			}
+			var arg reflect.Value
+			switch {
+			case m.Type().In(0) == reflect.TypeOf([]byte(nil)):
+				arg = reflect.ValueOf(lib.Clone(otherSK))
+			case m.Type().In(0).Kind() == reflect.Ptr && m.Type().In(0).Elem().Kind() == reflect.Array && m.Type().In(0).Elem().Len() == len(otherSK):
+				a := reflect.New(m.Type().In(0).Elem())
+				reflect.Copy(a.Elem(), reflect.ValueOf(otherSK))
+				arg = a
+			default:
+				continue
+			}
+			if pn := lib.Try("reload-private-key:"+p.Name, otherSK, func() { m.Call([]reflect.Value{arg}) }); pn == nil {
+				done = true
+			}
+			break
+		}
+		if !done {
+			lib.Count("pair-reload:no-own-decoder")
+			continue
+		}
+		lib.Count("pair-reload:private-key-object-reloaded")
+		for wi, pub := range []any{pkObj, pubObj} {
+			which := []string{"public key of the generated pair", "public key Public() returned before"}[wi]
+			if !im.verify(pub, msg, ctx, sig) || !lib.Eq(im.packPK(pub), pkb) {
+				viol(im, mon, "public-key-changed-by-reloading-the-private-key-object", "", "seed", seed, "which", which,
+					"still_verifies", im.verify(pub, msg, ctx, sig), "encoding_same", lib.Eq(im.packPK(pub), pkb))
 				break
 			}
 		}
